@@ -194,6 +194,7 @@ pub fn decompress_vector(value: &CompressedValue) -> Result<Vec<f32>, FormatErro
             shape,
             ranks,
         } => {
+            check_tt_structure(cores, shape)?;
             let tt = crate::TTVector {
                 cores: cores.clone(),
                 original_dim: *original_dim,
@@ -213,8 +214,13 @@ pub fn decompress_vector(value: &CompressedValue) -> Result<Vec<f32>, FormatErro
         } => {
             // Decompress positions from delta+varint encoding
             let pos_ids = decompress_ids(positions);
-            // Reconstruct dense vector
-            let mut dense = vec![0.0f32; *dimension];
+            // Reconstruct dense vector. The dimension comes from the file: allocate fallibly so
+            // that a corrupt value is an error instead of a capacity-overflow panic or an abort.
+            let mut dense: Vec<f32> = Vec::new();
+            dense.try_reserve_exact(*dimension).map_err(|e| {
+                FormatError::Io(std::io::Error::new(std::io::ErrorKind::OutOfMemory, e))
+            })?;
+            dense.resize(*dimension, 0.0);
             for (pos, &val) in pos_ids.iter().zip(values.iter()) {
                 if let Ok(idx) = usize::try_from(*pos) {
                     if idx < *dimension {
@@ -226,6 +232,33 @@ pub fn decompress_vector(value: &CompressedValue) -> Result<Vec<f32>, FormatErro
         },
         _ => Ok(Vec::new()),
     }
+}
+
+/// Cores read from a file must chain (`r_{k-1}` x `n_k` x `r_k` with `r_0 = r_n = 1`), match the
+/// shape and hold exactly the data their shape announces; `tt_reconstruct` indexes them unchecked.
+fn check_tt_structure(cores: &[TTCore], shape: &[usize]) -> Result<(), FormatError> {
+    let bad = || FormatError::TensorTrain(crate::TTError::IncompatibleShapes);
+    if cores.len() != shape.len() {
+        return Err(bad());
+    }
+    let mut left = 1usize;
+    let mut total = 1usize;
+    for (core, &mode) in cores.iter().zip(shape) {
+        let (l, m, r) = core.shape;
+        let len = l
+            .checked_mul(m)
+            .and_then(|x| x.checked_mul(r))
+            .ok_or_else(bad)?;
+        if l != left || m != mode || mode == 0 || r == 0 || core.data.len() != len {
+            return Err(bad());
+        }
+        total = total.checked_mul(mode).ok_or_else(bad)?;
+        left = r;
+    }
+    if left != 1 {
+        return Err(bad());
+    }
+    Ok(())
 }
 
 /// Compress i64 values with RLE if beneficial.
